@@ -246,7 +246,8 @@ def canon(e, env):
     if k == 'Range':
         return '%s..%s%s' % (canon(e['ch'][0], env), '=' if e['incl'] else '', canon(e['ch'][1], env))
     if k == 'Field':
-        return '%s.%s' % (canon(e['ch'][0], env), e['field'])
+        r_ = '%s.%s' % (canon(e['ch'][0], env), e['field'])
+        return env.get('__fields__', {}).get(r_, r_)
     if k == 'Struct':
         return '%s{%s}' % ('::'.join(strip_generics(e.get('def', '?')).split('::')[-1:]),
                            ', '.join('%s: %s' % (f['field'], canon(f['e'], env))
@@ -451,29 +452,95 @@ def _mutated_names(e):
     return out
 
 
-def paths(e, env=None, conds=frozenset(), effects=()):
-    """Yield (conds, leaf, effects) for every control path of e."""
+_TERMINAL = ('PANIC', 'break', 'continue')
+
+
+def _prime(en, locals_names):
+    """new env in which every (local id, source name) of locals_names reads as the next version
+    (name') of its current canonical name: what is read after an assignment is a new value"""
+    en = dict(en)
+    kv = dict(en.get('__val__', {}))
+    for l_, n_ in locals_names:
+        cur = en.get(l_, n_)
+        if re.fullmatch(r"[\w\[\]<>=!() .*+\-&|]+'*", cur) and not cur.startswith('('):
+            kv.pop(cur, None)
+            en[l_] = cur + "'"
+    en['__val__'] = kv
+    return en
+
+
+def _assign_target(x):
+    t = peel(x['ch'][0])
+    path = []
+    while t.get('k') in ('Field', 'Index') or (t.get('k') == 'Unary' and t.get('op') == 'Deref'):
+        if t.get('k') == 'Field':
+            path.append(t['field'])
+        t = peel(t['ch'][0])
+    if t.get('k') == 'Path' and t.get('res') == 'local':
+        return t, list(reversed(path))
+    return None, None
+
+
+def _after_assign(x, en):
+    """env after the assignment statement x: later reads of the target see a new version"""
+    t, path = _assign_target(x)
+    if t is None:
+        return en
+    if not path:
+        return _prime(en, [(t['local'], t['name'])])
+    en = dict(en)
+    fv = dict(en.get('__fields__', {}))
+    key = '.'.join([en.get(t['local'], t['name'])] + path)
+    fv[key] = fv.get(key, key) + "'"
+    en['__fields__'] = fv
+    return en
+
+
+def _paths(e, env=None, conds=frozenset(), effects=()):
+    """Yield (conds, leaf, effects, env) for every control path of e; env is the naming
+    environment at the end of the path (assigned variables read as primed versions)."""
     env = dict(env or {})
     e = peel(e)
     if '__mutated__' not in env:
         env['__mutated__'] = _mutated_names(e)
     k = e.get('k')
     if k == 'Block':
-        eff = list(effects)
-        pending = [(conds, tuple(eff), env)]
+        pending = [(conds, tuple(effects), env)]
         for s in e.get('stmts', []):
             nxt = []
             for cs, ef, en in pending:
                 if s['k'] == 'Let' and 'init' in s and s['pat'].get('k') == 'Binding' and \
                         peel(s['init']).get('k') in ('If', 'Match', 'Block') and _has_ret(peel(s['init'])):
                     # `let x = if c { return .. } else { e }`: control flow, not a value to inline
-                    for c2, leaf, ef2 in paths(peel(s['init']), en, cs, ef):
-                        if leaf.startswith('return ') or leaf == 'PANIC':
-                            yield c2, leaf, ef2
+                    for c2, leaf, ef2, en2 in _paths(peel(s['init']), en, cs, ef):
+                        if leaf.startswith('return ') or leaf in _TERMINAL:
+                            yield c2, leaf, ef2, en2
                         else:
-                            en2 = dict(en)
+                            en2 = dict(en2)
                             en2[s['pat']['local']] = leaf
                             nxt.append((c2, ef2, en2))
+                elif s['k'] == 'Let' and 'init' in s and s['pat'].get('k') == 'Binding' and \
+                        peel(s['init']).get('k') in ('If', 'Match') and try_operand(peel(s['init'])) is None \
+                        and not _inlineable(s['pat'], canon(peel(s['init']), en), en):
+                    # a conditional value that must stay named: one definition per branch
+                    nm = _keep_name(en, s['pat']['local'])
+                    if s['pat'].get('mut') and '__mutkept__' in en:
+                        en['__mutkept__'].add(nm)
+                    for c2, leaf, ef2, en2 in _paths(peel(s['init']), en, cs, ef):
+                        if leaf.startswith('return ') or leaf in _TERMINAL:
+                            yield c2, leaf, ef2, en2
+                        else:
+                            en2 = dict(en2)
+                            en2[s['pat']['local']] = nm
+                            for key_ in ('__n_v__',):
+                                en2[key_] = max(en2.get(key_, 0), en.get(key_, 0))
+                            kv = dict(en2.get('__val__', {}))
+                            if leaf == 'NULL':
+                                kv[nm] = 'NULL'
+                            else:
+                                kv.pop(nm, None)
+                            en2['__val__'] = kv
+                            nxt.append((c2, tuple(ef2) + ('%s := %s' % (nm, leaf),), en2))
                 elif s['k'] == 'Let' and 'init' in s:
                     en = dict(en)
                     init = peel(s['init'])
@@ -485,6 +552,8 @@ def paths(e, env=None, conds=frozenset(), effects=()):
                             # mutable or effectful / long initialiser: keep a (positional) name
                             nm = _keep_name(en, p_['local'])
                             en[p_['local']] = nm
+                            if p_.get('mut') and '__mutkept__' in en:
+                                en['__mutkept__'].add(nm)
                             ef = ef + ('%s := %s' % (nm, c),)
                         else:
                             en[p_['local']] = c
@@ -512,6 +581,10 @@ def paths(e, env=None, conds=frozenset(), effects=()):
                     elif s['pat'].get('k') != 'Binding':
                         pc = pat_canon(s['pat'], en)
                         ef = ef + ('let %s = %s' % (pc, canon(init, en)),)
+                    # an initialiser that mutates captured state (closures, &mut calls)
+                    mut_in = _mutated_names(init)
+                    if mut_in:
+                        en = _prime(en, mut_in)
                     nxt.append((cs, ef, en))
                 elif s['k'] == 'Let':
                     en = dict(en)
@@ -521,51 +594,73 @@ def paths(e, env=None, conds=frozenset(), effects=()):
                 elif s['k'] in ('Semi', 'Expr'):
                     x = peel(s['e'])
                     if x.get('k') in ('If', 'Match', 'Block'):
-                        for c2, leaf, ef2 in paths(x, en, cs, ef):
-                            if leaf.startswith('return ') or leaf == 'PANIC':
-                                yield c2, leaf, ef2
+                        for c2, leaf, ef2, en2 in _paths(x, en, cs, ef):
+                            if leaf.startswith('return ') or leaf in _TERMINAL:
+                                yield c2, leaf, ef2, en2
                             else:
-                                nxt.append((c2, ef2, en))
+                                nxt.append((c2, ef2, en2))
                     elif x.get('k') == 'Ret':
                         v = canon(x['ch'][0], en) if x.get('ch') else '()'
-                        yield cs, 'return ' + v, ef
+                        yield cs, 'return ' + v, ef, en
+                    elif x.get('k') in ('Break', 'Continue'):
+                        yield cs, x['k'].lower(), ef, en
                     elif x.get('k') in ('Assign', 'AssignOp'):
-                        nxt.append((cs, ef + (_assign_str(x, en),), en))
+                        nxt.append((cs, ef + (_assign_str(x, en),), _after_assign(x, en)))
                     elif x.get('k') in ('For', 'While', 'Loop'):
-                        nxt.append((cs, ef + (canon(x, en),), en))
+                        nxt.append((cs, ef + (canon(x, en),), _prime(en, _mutated_names(x))))
                     else:
+                        en_after = _prime(en, _mutated_names(x)) if _mutated_names(x) else en
                         nxt.append((cs, ef + (canon(x, en),) if s['k'] == 'Semi' and
-                                    x.get('k') in ('MethodCall', 'Call') else ef, en))
+                                    x.get('k') in ('MethodCall', 'Call') else ef, en_after))
                 else:
                     nxt.append((cs, ef, en))
             pending = nxt
         if 'expr' in e:
             for cs, ef, en in pending:
-                yield from paths(e['expr'], en, cs, ef)
+                yield from _paths(e['expr'], en, cs, ef)
         else:
             for cs, ef, en in pending:
-                yield cs, '()', ef
+                yield cs, '()', ef, en
         return
     if k == 'If':
         c = e['ch']
         en_t = dict(env)
         t = conj(c[0], en_t)
         f = conj(c[0], dict(env), False)
-        yield from paths(c[1], en_t, conds | frozenset(t), effects)
-        if len(c) > 2:
-            yield from paths(c[2], env, conds | frozenset(f), effects)
-        else:
-            yield conds | frozenset(f), '()', effects
+        # a kept name currently bound to the null literal decides VALID(name) outright
+        known = env.get('__val__', {})
+
+        def decide(cs_):
+            out_ = []
+            for c_ in cs_:
+                m_ = re.fullmatch(r"(!?)VALID\((v\d+'*)\)", c_)
+                if m_ and known.get(m_.group(2)) == 'NULL':
+                    if not m_.group(1):
+                        return None        # VALID(null) is false
+                    continue
+                out_.append(c_)
+            return out_
+        t2 = decide(t)
+        if t2 is not None:
+            yield from _paths(c[1], en_t, conds | frozenset(t2), effects)
+        f2 = decide(f) if len(f) == 1 else f
+        if t2 is None:
+            f2 = []                        # the else branch is taken unconditionally
+        if f2 is not None:
+            if len(c) > 2:
+                yield from _paths(c[2], env, conds | frozenset(f2), effects)
+            else:
+                yield conds | frozenset(f2), '()', effects, env
         return
     if k == 'Match' and _bool_match(e) is not None:
         c_, a_, b_ = _bool_match(e)
-        yield from paths({'k': 'If', 'ch': [c_, a_, b_]}, env, conds, effects)
+        yield from _paths({'k': 'If', 'ch': [c_, a_, b_]}, env, conds, effects)
         return
     if k == 'Match' and try_operand(e) is None:
         tr = _tuple_match_rows(e, env)
         if tr is not None:
             for c_, a, en in tr:
-                yield from paths(a['body'], en, conds | frozenset(c_), effects)
+                yield from _paths(a['body'], en, conds | frozenset(c_), effects)
             return
         scr = canon(e['ch'][0], env)
         prior = []
@@ -580,19 +675,31 @@ def paths(e, env=None, conds=frozenset(), effects=()):
             prior.append(None if 'guard' in a else c_)
             if 'guard' in a:
                 cs = cs | frozenset(conj(a['guard'], en))
-            yield from paths(a['body'], en, cs, effects)
+            yield from _paths(a['body'], en, cs, effects)
         return
     if k == 'Ret':
         v = canon(e['ch'][0], env) if e.get('ch') else '()'
-        yield conds, 'return ' + v, effects
+        yield conds, 'return ' + v, effects, env
+        return
+    if k in ('Break', 'Continue'):
+        yield conds, k.lower(), effects, env
         return
     if k in ('Assign', 'AssignOp'):
-        yield conds, '()', tuple(effects) + (_assign_str(e, env),)
+        yield conds, '()', tuple(effects) + (_assign_str(e, env),), _after_assign(e, env)
+        return
+    if k in ('For', 'While', 'Loop'):
+        yield conds, '()', tuple(effects) + (canon(e, env),), _prime(env, _mutated_names(e))
         return
     if e.get('ty') == '!':
-        yield conds, 'PANIC', effects
+        yield conds, 'PANIC', effects, env
         return
-    yield conds, canon(e, env), effects
+    yield conds, canon(e, env), effects, env
+
+
+def paths(e, env=None, conds=frozenset(), effects=()):
+    """Yield (conds, leaf, effects) for every control path of e."""
+    for cs, leaf, ef, en in _paths(e, env, conds, effects):
+        yield cs, leaf, ef
 
 
 def _has_ret(e):
@@ -896,12 +1003,36 @@ def _resort_table(t):
     return {(frozenset(_resort(c) for c in cs), _resort(l), tuple(_resort(e) for e in ef)) for cs, l, ef in t}
 
 
+def merge_rows(t):
+    """combine rows that differ only in one complementary condition and agree on value and
+    effects (the condition is irrelevant there)"""
+    rows = [(frozenset(cs), l, tuple(ef)) for cs, l, ef in t]
+    changed = True
+    while changed:
+        changed = False
+        for i in range(len(rows)):
+            for j in range(i + 1, len(rows)):
+                (c1, l1, e1), (c2, l2, e2) = rows[i], rows[j]
+                if l1 != l2 or e1 != e2:
+                    continue
+                d1, d2 = c1 - c2, c2 - c1
+                if len(d1) == 1 and len(d2) == 1 and _neg(next(iter(d1))) == next(iter(d2)):
+                    rows[i] = (c1 & c2, l1, e1)
+                    del rows[j]
+                    changed = True
+                    break
+            if changed:
+                break
+    return set(rows)
+
+
 def equiv(a, b):
     """Equality of two tables up to an injective renaming of the positional names (v0, v1 ..)
     of kept lets: local variable names carry no meaning."""
     a, b = set(a), set(b)
     if a == b:
         return True
+    a, b = merge_rows(a), merge_rows(b)
     if len(a) != len(b):
         return False
     a, b = _resort_table(a), _resort_table(b)
@@ -1034,6 +1165,11 @@ def simplify(cs):
     return frozenset(out)
 
 
+def unprime(x):
+    """drop the version marks (name' = value after an assignment) from a canonical string"""
+    return re.sub(r"(?<=[\w\]])'+", '', x)
+
+
 def holds(cond, binding):
     """Truth of a canonical condition at a sample point.  `binding` maps canonical sub-strings
     (terms or whole predicates) to python ints / bools; None when something else remains."""
@@ -1062,6 +1198,37 @@ class Table(set):
         return r if r is NotImplemented else not r
 
 
+_ASSIGNS = re.compile(r'^([\w.\[\]]+) (=|\w+Assign) ')
+
+
+def _inline_defs(leaf, ef, cs=(), mutkept=()):
+    """substitute `v := X` into what follows when v is never reassigned and nothing X reads is
+    assigned later on the path (the definition then only names a value)"""
+    ef = list(ef)
+    changed = True
+    while changed:
+        changed = False
+        for i, e in enumerate(ef):
+            m = re.match(r'(v\d+) := (.*)$', e)
+            if not m or _EFFECTFUL.search(m.group(2)) or '|' in m.group(2):
+                continue
+            v, x = m.group(1), m.group(2)
+            later = ef[i + 1:]
+            rxv = re.compile(r'\b%s\b' % v)
+            text = ' ; '.join(later + [leaf])
+            targets = set(re.findall(r'([\w.\[\]]+) (?:=|:=|\w+Assign) ', text))
+            if v in targets or v in mutkept or any(rxv.search(c_) for c_ in cs):
+                continue
+            if any(re.search(r'(?<![\w.])%s(?![\w(])' % re.escape(a_), x) for a_ in targets):
+                continue
+            sub_ = x if re.fullmatch(r'[\w.]+|.*\)|.*\}', x) else x
+            ef = ef[:i] + [rxv.sub(lambda _m: sub_, l_) for l_ in later]
+            leaf = rxv.sub(lambda _m: sub_, leaf)
+            changed = True
+            break
+    return leaf, tuple(ef)
+
+
 def _drop_dead(cs, leaf, ef):
     """remove `v := <pure expr>` definitions of kept lets that nothing on the path reads"""
     ef = list(ef)
@@ -1085,12 +1252,16 @@ def _drop_dead(cs, leaf, ef):
 def table(e, env=None):
     """Set of (conds, leaf, effects) with returns unwrapped."""
     out = Table()
+    env = dict(env or {})
+    env.setdefault('__mutkept__', set())
+    mutkept = env['__mutkept__']
     for cs, leaf, ef in paths(e, env):
         if leaf.startswith('return '):
             leaf = leaf[7:]
         cs = simplify(cs)
         if cs is None:
             continue        # infeasible path
+        leaf, ef = _inline_defs(leaf, tuple(ef), cs, mutkept)
         out.add((cs, leaf, _drop_dead(cs, leaf, tuple(ef))))
     return out
 
